@@ -139,7 +139,10 @@ PROPS["C16"] = dict(
           "height / history that emitted more than three frames. Distinct = distinct geometry / (world, events)."),
     units=[
         enum("GeomEnum", "TestGeomEnum"),
-        rapid("Frames", "TestFrames", 1600, 60000, shards=(8, 16), config_toml=_NET, timeout=dict(quick=600, thorough=3000)),
+        # a frame of the wrong height cannot be a timing artefact of the harness (frames are counted, not timed), so such a
+        # failure is reported even when it depends on the schedule and does not reproduce from the saved case
+        rapid("Frames", "TestFrames", 1600, 60000, shards=(8, 16), config_toml=_NET, timeout=dict(quick=600, thorough=3000),
+              retry_confirm=4, trust_unconfirmed=r"terminal has \d+ lines"),
     ],
     exhaustive_claim=["GeomEnum"],
     manifest=dict(
@@ -201,10 +204,11 @@ PROPS["C06"] = dict(
     rule=("(Prop) ActivityStreams-shaped JSON (posts, actors, activities, collections, links, odd types; embedded sub-objects) filled "
           "from benign or hostile string sources, bodies in the four media types from tag-soup / Markdown / gemtext / plain grammars, "
           "then a corruption pass replacing fields by wrong-typed, absurd or 10..200-deep junk values; (Deep) bodies nesting 8..120 "
-          "block/inline elements around small and 2 KB payloads. For the item and everything reachable from it (parents, children, "
+          "block or mixed elements, or 8..150 inline elements (one tag, an alternating pair, or a random mix), around small and 2 KB "
+          "payloads. For the item and everything reachable from it (parents, children, "
           "creators, recipients, actor, target): String/Preview at widths from -10 to 200, Name, Timestamp, Parents(q), "
           "Children().Harvest(q,s), Media/ProfilePic/Banner, SelectLink(n) for n in {min int,-1,0,1,2,3,5,10,1000,max int}. Oracle: "
-          "returns normally (panics caught), within 20 s per case, producing < 64 MiB. Non-trivial: at least one corruption, nesting "
+          "returns normally (panics caught), every single call within 10 s (60 s per case; a breach must reproduce alone in a fresh process), producing < 64 MiB and at most 400 bytes of output per displayed character. Non-trivial: at least one corruption, nesting "
           "depth >= 8, or a width <= 2. Distinct = distinct (JSON text, widths)."),
     units=[
         rapid("Prop", "TestProp", 12000, 400000, timeout=dict(quick=600, thorough=3000)),
@@ -216,7 +220,7 @@ PROPS["C06"] = dict(
               "watchdog; thorough adds coverage-guided fuzzing of raw bodies in all four media types. Crash-freedom and a generous "
               "time/size budget are the oracle; content correctness is left to C01/C12/C14/C15. Sampled."),
         design_ref="DESIGN.md §3 C06",
-        note=("Trusted: the 20 s / 64 MiB budget as a proxy for 'promptly' and 'does not exhaust memory'. One open finding "
+        note=("Trusted: the 10 s per call / 64 MiB budget as a proxy for 'promptly' and 'does not exhaust memory'. One open finding "
               "(deep-nesting-cost) is excluded by construction and counted."),
         technique="property-based robustness testing (rapid) with corruption pass + native go fuzzing, watchdog oracle",
     ),
@@ -297,10 +301,12 @@ PROPS["C04"] = dict(
           "Oracle at the simulator for every accepted connection: TLS negotiated; bytes are exactly 'GET target HTTP/1.0 CRLF Host: "
           "authority CRLF Accept: constant CRLF CRLF' with nothing after; target starts with '/' and has no SP/CTL; Host designates "
           "the contacted listener; for clean URLs the target equals the one known by construction; the plaintext canary is never "
-          "contacted. Non-trivial: the input has a hostile element and led to at least one connection beyond the planted document's own "
-          "fetch. Distinct = distinct case."),
+          "contacted. (Browse) every request issued while C07's generated key histories browse generated worlds (small cache, so "
+          "pages are re-fetched) is judged by the same recogniser. Non-trivial: the input has a hostile element and led to at least one "
+          "connection beyond the planted document's own fetch / the history issued at least five requests. Distinct = distinct case."),
     units=[
-        rapid("Prop", "TestProp", 12000, 300000, config_toml=_NET + "cache_size = 1\n"),
+        rapid("Prop", "TestProp", 8000, 300000, config_toml=_NET + "cache_size = 1\n"),
+        rapid("Browse", "TestBrowse", 800, 40000, shards=(8, 16), config_toml=_NET + "cache_size = 4\n", timeout=dict(quick=600, thorough=3000)),
     ],
     manifest=dict(
         text=("Property-based testing with a byte-exact request recogniser at the loopback TLS simulator plus a plaintext canary; "
@@ -379,10 +385,14 @@ PROPS["C11"] = dict(
           "the returned continuation, each step also asked twice and, for 'again' steps, asked for a different amount without "
           "advancing. Oracle: reference k-way merge (latest head first, ties to the source listed first); every answer equals the next "
           "chunk of the reference; repeated asks agree; at the end the continuation is empty or harvests to nothing, and a typed-nil "
-          "continuation (which the UI would call Harvest on) is a violation. Non-trivial: >= 2 non-empty sources and exhaustion inside "
-          "a request. Distinct = distinct (sources, program)."),
+          "continuation (which the UI would call Harvest on) is a violation. (Feeds) real feeds built by NewSplicer over 1..3 "
+          "simulator-served actors (paged outboxes, impostor and missing activities, actors without outbox) opened in the UI and "
+          "walked down and up item by item with preload 1..5; the highlighted item after every key is compared with the newest-first "
+          "merge computed from the world's ground truth. Non-trivial: >= 2 non-empty sources and exhaustion inside a request / a feed "
+          "of >= 2 actors. Distinct = distinct (sources, program) / (world, walk)."),
     units=[
         rapid("Prop", "TestProp", 40000, 2000000, config_toml=_NET),
+        rapid("Feeds", "TestFeeds", 600, 30000, shards=(8, 16), config_toml=_NET, timeout=dict(quick=600, thorough=3000)),
     ],
     manifest=dict(
         text=("Stateful property-based testing of the feed splicer against a reference k-way merge, chunk by chunk, including "
